@@ -1327,6 +1327,8 @@ def field_path(self, path, env, heap):
 def apply_binds(self, callee, sub, cst, st):
     """at a call site: the fields the callee binds hold exactly the declared values"""
     for path, text in callee.binds.items():
+        if path.startswith("result."):
+            continue        # fields of the result object: bound once the result exists (bind_result)
         obj, fld = field_path(self, path, cst.env, st.heap)
         val = sub.spec(Clause(text), cst)
         root_t = callee.params.get(path.split(".")[0])
@@ -1344,12 +1346,38 @@ def apply_binds(self, callee, sub, cst, st):
 
 Engine.apply_binds = apply_binds
 
+
+def bind_result(self, callee, sub, cst, st, res):
+    """fields of a freshly allocated result that hold existing objects (e.g. the continuum an alignment is attached to)"""
+    for path, text in callee.binds.items():
+        if not path.startswith("result."):
+            continue
+        fld = path.split(".", 1)[1]
+        val = sub.spec(Clause(text), cst)
+        obj = res.val if isinstance(res, Opt) else res
+        cur = st.heap[obj.oid].get(fld)
+        if isinstance(cur, Opt) and isinstance(val, Ref):
+            val = Opt(z3.BoolVal(False), val)
+        st.heap[obj.oid][fld] = val
+
+
+Engine.bind_result = bind_result
+
 _prev_at_return = Engine.at_return
 
 
 def at_return(self, st, val, line):
     # bound fields are obligations of the callee's own body
     for path, text in self.c.binds.items():
+        if path.startswith("result."):
+            fld = path.split(".", 1)[1]
+            r = val.val if isinstance(val, Opt) else val
+            cur = st.heap[r.oid][fld] if isinstance(r, Ref) else None
+            want = self.spec(Clause(text), st)
+            ok = isinstance(cur, Opt) and isinstance(cur.val, Ref) and isinstance(want, Ref) and cur.val.oid == want.oid
+            g = z3.And(z3.Not(cur.isnone), z3.BoolVal(ok)) if isinstance(cur, Opt) else z3.BoolVal(isinstance(cur, Ref) and cur.oid == want.oid)
+            self.oblige(st, g, f"binds/{path}@{line}", "post", line, f"{path} is {text}", None)
+            continue
         obj, fld = field_path(self, path, st.env, st.heap)
         cur = st.heap[obj.oid][fld] if isinstance(obj, Ref) else obj.fields[fld]
         want = self.spec(Clause(text), st)
